@@ -111,3 +111,74 @@ func (c *Ctx) checkBindingErrorsUsed(r *Report, rule string) {
 	}
 	r.Floor(rule, 8)
 }
+
+// checkMacroCallsAlwaysExpand: rule C13.R10.
+//
+// ExpandMacros rewrites the tree with a callback: once isMacroCall has said that a call names a macro of the
+// macro store, the callback returns an expansion (or an error node), never its own argument. A path that
+// hands the call back unchanged after that test leaves a macro call in the program to be evaluated as an
+// ordinary call - whatever the extra condition on that path looks at (a function of the same name bound in
+// the session, for instance), separate call sites stop expanding independently of the history.
+func (c *Ctx) checkMacroCallsAlwaysExpand(r *Report, rule string) {
+	isMacroCall := c.Fn("eval", "isMacroCall")
+	n := 0
+	for _, fn := range c.ModuleSSAFuncs() {
+		if fn.Parent() == nil || fn.Parent().Name() != "ExpandMacros" {
+			continue
+		}
+		for _, ci := range callsIn(fn, isMacroCall) {
+			call, ok := ci.(*ssa.Call)
+			if !ok {
+				continue
+			}
+			n++
+			okv := extractOf(call, 1)
+			var arm *ssa.BasicBlock
+			if okv != nil {
+				for _, ref := range *okv.Referrers() {
+					if ifi, ok := ref.(*ssa.If); ok {
+						arm = ifi.Block().Succs[0]
+					}
+				}
+			}
+			if arm == nil || len(arm.Preds) != 1 {
+				r.Undecided("%s: the ok edge of isMacroCall was not found in %s", rule, ssaFuncName(fn))
+				continue
+			}
+			bad := ""
+			for _, b := range fn.Blocks {
+				if !(b == arm || arm.Dominates(b)) {
+					continue
+				}
+				ret, ok := b.Instrs[len(b.Instrs)-1].(*ssa.Return)
+				if !ok || len(ret.Results) != 1 {
+					continue
+				}
+				v := ret.Results[0]
+				for i := 0; i < 3; i++ {
+					switch x := v.(type) {
+					case *ssa.MakeInterface:
+						v = x.X
+					case *ssa.ChangeInterface:
+						v = x.X
+					case *ssa.TypeAssert:
+						v = x.X
+					}
+				}
+				if len(fn.Params) > 0 && v == ssa.Value(fn.Params[0]) {
+					bad = c.Pos(ret.Pos())
+				}
+				if ex, ok := v.(*ssa.Extract); ok {
+					if ta, ok := ex.Tuple.(*ssa.TypeAssert); ok && len(fn.Params) > 0 && ta.X == ssa.Value(fn.Params[0]) {
+						bad = c.Pos(ret.Pos())
+					}
+				}
+			}
+			r.Check(bad == "", rule, ssaFuncName(fn), "a call that names a macro is always expanded", c.Pos(call.Pos()),
+				"after isMacroCall said yes the callback can still return the call unchanged ("+bad+"): the macro call stays in the program and is evaluated as an ordinary call")
+		}
+	}
+	if n == 0 {
+		r.Undecided("%s: no call of isMacroCall found in the callback of ExpandMacros", rule)
+	}
+}
